@@ -51,14 +51,22 @@ def fix_tags(g):
 def decl_block(g, lang):
     out = []
     # every terminal is declared with its tag (literals too), so that $n works on all of them
+    # a named token flagged declared=False that stands in a precedence line appears there first; its tagged %token line follows
+    inprec = set(i for _, ts in g['precs'] for i in ts)
+    late = []
     for i, t in enumerate(g['terms']):
         num = ' %d' % t['num'] if t.get('num') is not None else (' ' + t['alias'] if t.get('alias') and not t['lit'] else '')
-        out.append('%%token <%s> %s%s\n' % (t['tag'], gram.tname(g, i), num))
+        line = '%%token <%s> %s%s\n' % (t['tag'], gram.tname(g, i), num)
+        if t.get('declared') is False and not t['lit'] and i in inprec and not num:
+            late.append(line)
+        else:
+            out.append(line)
     for n in g['nonterms']:
         out.append('%%%s <%s> %s\n' % ('token' if n.get('as_token') else 'type', n['tag'], n['name']))
     out += [x for x in gram.redeclarations(dict(g, terms=[dict(t, declared=True) for t in g['terms']]))]
     for kind, ts in g['precs']:
         out.append('%%%s %s\n' % (kind, ' '.join(gram.tname(g, i) for i in ts)))
+    out += late
     if not (g.get('implicit_start') and g['nonterms'][g['start']]['name'] == 'start'):
         out.append('%%start %s\n' % g['nonterms'][g['start']]['name'])
     return ''.join(out)
